@@ -449,6 +449,9 @@ impl Template {
         if let Role::Proved(b) = role {
             return Ok(Some(b.as_ref().clone()));
         }
+        // the identifier monitor applies to copies whose identifier is ours to begin with (a copy into which a
+        // damaged message was merged may no longer assemble into a transaction at all)
+        let input_ok = txid_of(&p).map(|t| t == self.txid0).unwrap_or(false);
         let out: Result<Result<Pczt, String>, String> = catch(|| -> Result<Pczt, String> {
             match role {
                 Role::SignT(i) => {
@@ -499,6 +502,9 @@ impl Template {
             }
             Ok(Ok(q)) => {
                 let b = check_encoding(ctx, &q, name)?;
+                if !input_ok {
+                    return Ok(Some(b));
+                }
                 ctx.oracle("txid_invariant");
                 if matches!(role, Role::Compactor) {
                     // the documented consumer side: restore the compacted fields, then read the identifier
